@@ -7,7 +7,7 @@ from concurrent.futures import ThreadPoolExecutor
 
 from common import Inconclusive
 
-MAX_TLC = 4   # at most this many TLC JVMs side by side (memory)
+MAX_TLC = 3   # at most this many TLC JVMs side by side (shared machine)
 
 
 def parse_hist(ctx, res, marker="HIST"):
